@@ -557,6 +557,40 @@ var c11Pairs = probe.Define("C11", "pairs", func(t *rapid.T) c11PairIn { panic("
 	return probe.OK(in.First != in.Second, "pairs:"+in.Path)
 })
 
+// names the library does not advertise are answered with "no such algorithm" - a nil descriptor (an error for ESN) -, never
+// with a descriptor of some other algorithm and never with a value that claims to be present but cannot be used
+type c11NameIn struct {
+	Name string `json:"name"`
+}
+
+var c11Names = probe.Define("C11", "unknown-names", func(t *rapid.T) c11NameIn { panic("enumerated") }, func(in c11NameIn) probe.Outcome {
+	var bad string
+	if err := probe.Try(func() error {
+		if d := encr.StrToType(in.Name); d != nil {
+			bad = fmt.Sprintf("encr.StrToType -> id %d, %d-octet keys", d.TransformID(), d.GetKeyLength())
+		} else if d := encr.StrToKType(in.Name); d != nil {
+			bad = fmt.Sprintf("encr.StrToKType -> id %d", d.TransformID())
+		} else if d := integ.StrToType(in.Name); d != nil {
+			bad = fmt.Sprintf("integ.StrToType -> id %d", d.TransformID())
+		} else if d := integ.StrToKType(in.Name); d != nil {
+			bad = fmt.Sprintf("integ.StrToKType -> id %d", d.TransformID())
+		} else if d := prf.StrToType(in.Name); d != nil {
+			bad = fmt.Sprintf("prf.StrToType -> id %d", d.TransformID())
+		} else if d := dh.StrToType(in.Name); d != nil {
+			bad = fmt.Sprintf("dh.StrToType -> id %d", d.TransformID())
+		} else if d, err := esn.StrToType(in.Name); err == nil {
+			bad = fmt.Sprintf("esn.StrToType -> %v without error", d)
+		}
+		return nil
+	}); err != nil {
+		return probe.Fail("looking up the unknown name %q yields a descriptor that is not nil but cannot be used: %v", in.Name, err)
+	}
+	if bad != "" {
+		return probe.Fail("the name %q is not advertised, yet %s", in.Name, bad)
+	}
+	return probe.OK(true, "unknown-names")
+})
+
 // proposals whose first transform of some type is unsupported / ill-attributed must not yield an SA
 type c11BadIn struct {
 	Which string  `json:"which"` // encr | integ | prf | dh | esn
@@ -769,6 +803,10 @@ func TestC11(t *testing.T) {
 		}
 	}
 	if c.Shard == 0 {
+		for _, n := range []string{"", "bogus", "ENCR_AES_CBC_512", "ENCR_AES_CBC", "AUTH_HMAC_SHA2_512_256", "PRF_HMAC_SHA2_512", "DH_4096_BIT_MODP", "ESN",
+			"encr_aes_cbc_128", "auth_hmac_sha1_96", "prf_hmac_sha1", "ENCR_AES_CBC_128 ", " AUTH_HMAC_MD5_96", "PRF_HMAC_SHA1\x00", "DH_1024_BIT_MODP\n", "ESN_ENABLED"} {
+			c11Names.Eval(c, c11NameIn{Name: n})
+		}
 		for _, path := range []string{"decode", "decode-child", "ike-proposal", "child-proposal"} {
 			for _, wire := range []bool{false, true} {
 				for a := 0; a < 3; a++ {
